@@ -44,7 +44,7 @@ pub fn run(seed: u64, ntraces: usize) {
                 let kind = r.below(4); let native = kind == 1 || kind == 3;
                 let (egld, esdt) = gen_pay(&mut r, native);
                 let ep = ["payGasForContractCall", "payNativeGasForContractCall", "payGasForExpressCall", "payNativeGasForExpressCall"][kind as usize];
-                let sender = r.pick(&all).clone(); let refund = r.pick(&all).clone(); let payload = r.some_bytes();
+                let sender = r.pick(&all).clone(); let refund = if r.chance(1, 8) { VMAddress::zero() } else { r.pick(&all).clone() }; let payload = r.some_bytes();      // a zero refund address is legal and must be reported as given
                 let st = w.tx(&anyone, &gs, ep, vec![sender.to_vec(), b"ethereum".to_vec(), b"0xdest".to_vec(), payload.clone(), refund.to_vec()], &bn(egld), &esdt);
                 let mut j = json!({"op": "pay", "kind": kind, "sender": hx(sender.as_bytes()), "chain": hx(b"ethereum"), "daddr": hx(b"0xdest"), "payload": hx(&payload), "refund": hx(refund.as_bytes())});
                 j["pay"] = pj(egld, &esdt); (j, st)
@@ -52,7 +52,7 @@ pub fn run(seed: u64, ntraces: usize) {
                 let kind = r.below(4); let native = kind == 1 || kind == 3;
                 let (egld, esdt) = gen_pay(&mut r, native);
                 let ep = ["addGas", "addNativeGas", "addExpressGas", "addNativeExpressGas"][kind as usize];
-                let refund = r.pick(&all).clone(); let txh = r.bytes(8); let li = r.below(300);
+                let refund = if r.chance(1, 8) { VMAddress::zero() } else { r.pick(&all).clone() }; let txh = r.bytes(8); let li = r.below(300);
                 let st = w.tx(&anyone, &gs, ep, vec![txh.clone(), big(li), refund.to_vec()], &bn(egld), &esdt);
                 let mut j = json!({"op": "add", "kind": kind, "txhash": hx(&txh), "logidx": li.to_string(), "refund": hx(refund.as_bytes())});
                 j["pay"] = pj(egld, &esdt); (j, st)
